@@ -568,8 +568,9 @@ func (c *Channel) addToInFlightPQ(msg *Message) {
 
 func (c *Channel) removeFromInFlightPQ(msg *Message) {
 	c.inFlightMutex.Lock()
-	if msg.index == -1 {
+	if msg.index < 0 || msg.index >= len(c.inFlightPQ) || c.inFlightPQ[msg.index] != msg {
 		// this item has already been popped off the pqueue
+		// (or the pqueue was reset by Empty() since the index was recorded)
 		c.inFlightMutex.Unlock()
 		return
 	}
